@@ -1,3 +1,4 @@
+#include <limits>
 #include "define.h"
 #include <omp.h>
 #include <functional>
@@ -97,6 +98,7 @@ void gmres_single(at::Tensor &solution, int &flag, int &nit, AMENsolveMV<T> &Op,
       //  ts = std::chrono::high_resolution_clock::now();
         
        // #pragma omp parallel for num_threads(32)
+        T q_norm = torch::norm(q).item<T>();
         for(int i=0;i<k+1;i++){
             HA[i][k] = at::dot(q.squeeze(), Q[i]).item<T>();
             q -= (HA[i][k] * Q[i]).reshape({-1,1});
@@ -107,8 +109,8 @@ void gmres_single(at::Tensor &solution, int &flag, int &nit, AMENsolveMV<T> &Op,
      //   ts = std::chrono::high_resolution_clock::now();
         T h = torch::norm(q).item<T>();
 
-        // exact breakdown: the Krylov space is invariant (or exhausted), nothing more can be gained
-        bool breakdown = !(h > 0);
+        // breakdown: what is left of the new direction is zero up to roundoff - the Krylov space is invariant (or exhausted), nothing more can be gained
+        bool breakdown = !(h > 4 * std::numeric_limits<T>::epsilon() * q_norm);
         if(!breakdown)
             q /= h;
 
